@@ -404,6 +404,42 @@ fn kc5_sync_cancel(_sim: bool) -> Result<Out, String> {
     Ok(Out::Ok("three in-flight submissions (one multishot) all finished with -ECANCELED, without F_MORE, when the call returned".into()))
 }
 
+/// DEFER_TASKRUN (single issuer): completions are only posted while the submitter is inside
+/// `io_uring_enter(GETEVENTS)`, and one call hands over a bounded batch — so a caller that wants
+/// everything has to enter until a call brings nothing new.
+fn defer_taskrun_batches(sim: bool) -> Result<Out, String> {
+    if sim {
+        return Ok(Out::Skip("see the teardown component (deferred completions are handed over in batches there)".into()));
+    }
+    const SETUP_DEFER_TASKRUN: u32 = 1 << 13;
+    let r = Ring::new(64, SETUP_SUBMIT_ALL | SETUP_SINGLE_ISSUER | SETUP_DEFER_TASKRUN, 0).map_err(|e| format!("setup: {e}"))?;
+    let (pr, pw) = pipe();
+    for ud in 1..=40u64 {
+        r.push(poll_add(pr, ud, false));
+    }
+    ensure!(r.enter(40, 0, 0, None) == 40, "submit");
+    let reg = SyncCancelReg { addr: 0, fd: -1, flags: 1 | 4, tv_sec: 1, tv_nsec: 0, opcode: 0, pad: [0; 7], pad2: [0; 3] };
+    let ret = r.register(REG_SYNC_CANCEL, &reg as *const _ as usize, 1);
+    ensure!(ret >= 0, "SYNC_CANCEL returned {ret}");
+    let before = r.cq_tail().wrapping_sub(r.cq_head());
+    let mut batches = Vec::new();
+    for _ in 0..10 {
+        r.enter(0, 1, ENTER_GETEVENTS, Some(0));
+        let n = r.reap().len();
+        if n == 0 {
+            break;
+        }
+        batches.push(n);
+    }
+    let total: usize = batches.iter().sum::<usize>() + before as usize;
+    ensure!(total == 40, "40 cancelled submissions, {total} completions (published before any enter: {before}, batches {batches:?})");
+    unsafe {
+        libc::close(pr);
+        libc::close(pw);
+    }
+    Ok(Out::Ok(format!("40 cancelled submissions: {before} completions published when SYNC_CANCEL returned, then batches {batches:?} per enter(GETEVENTS, min_complete = 1)")))
+}
+
 /// KC2: a multishot submission posts completions with F_MORE while it stays armed and exactly
 /// one without when it ends.
 fn kc2_multishot_more(sim: bool) -> Result<Out, String> {
@@ -647,6 +683,7 @@ pub fn run(mode: &str) -> i32 {
         ("KC5 ASYNC_CANCEL", kc5_async_cancel),
         ("KC5 SYNC_CANCEL(ANY|ALL)", kc5_sync_cancel),
         ("KC7 MSG_RING", kc7_msg_ring),
+        ("DEFER_TASKRUN completion batches", defer_taskrun_batches),
         ("B.3 return value of io_uring_enter", b3_enter_return_value),
         ("B.4 disabled ring", b4_disabled_ring),
         ("B.4 single issuer", b4_single_issuer),
